@@ -90,6 +90,7 @@ func main() {
 	nReaders := flag.Int("readers", 8, "reader goroutines (<= 8)")
 	tracecap := flag.Int("tracecap", 40, "observation groups kept per reader and run for the TLA+ trace")
 	traceRuns := flag.Int("traceruns", 0, "write only this many runs into the trace (0 = all)")
+	noStamp := flag.Bool("nostamp", false, "no shared stamp counter / phase word (race-detector runs): no trace, no linearization checks")
 	batch := flag.Int("batch", 400, "queries of the read-only batch at quiescence")
 	flag.Parse()
 	defer func() {
@@ -120,7 +121,14 @@ func main() {
 	written, writtenViol := 0, 0
 	for s := 0; s < *streams; s++ {
 		sseed := *seed*1000 + int64(s)
-		w := buildStream(sseed, *blocks, s%3 == 1) // every third stream (the 2nd, 5th, ..) runs proof of stake
+		w, merr := tryBuildStream(sseed, *blocks, s%3 == 1) // every third stream (the 2nd, 5th, ..) runs proof of stake
+		if merr != nil {
+			// the stored state of a block could not be read back while packing on it (sequentially, valid inputs): an
+			// observation on the real code, not harness trouble
+			stats = append(stats, runStats{Stream: s, Run: -1, Seed: sseed, ByPhase: map[string]uint64{}, Violations: []violation{{
+				Sig: "state-unreadable:packing-on-a-stored-block", Reader: "stream construction (no readers)", What: merr.Error()}}})
+			continue
+		}
 		w.propose = *propose
 		must(os.MkdirAll(filepath.Join(tmp, fmt.Sprintf("s%d-dry", s)), 0o755))
 		if err := w.addLateBranch(filepath.Join(tmp, fmt.Sprintf("s%d-dry", s))); err != nil {
@@ -156,9 +164,9 @@ func main() {
 		for r := 0; r < *runs; r++ {
 			dir := filepath.Join(tmp, fmt.Sprintf("s%d-r%d", s, r))
 			must(os.MkdirAll(dir, 0o755))
-			st, evs := w.concurrentRun(s, r, dir, *nReaders, *tracecap, names, blocksCfg, r == *runs-1, *batch)
+			st, evs := w.concurrentRun(s, r, dir, *nReaders, *tracecap, names, blocksCfg, r == *runs-1, *batch, *noStamp)
 			st.Seed = sseed
-			if st.Diverged {
+			if st.Diverged || evs == nil {
 				// reported on its own; a node whose fork choice was derailed re-proposes the same block etc. - its
 				// trace is not a behaviour of Publish.tla and would only repeat the verdict
 			} else if *traceRuns == 0 || written < *traceRuns || (len(st.Violations) > 0 && writtenViol < 4) {
@@ -192,7 +200,7 @@ func main() {
 	fmt.Printf("{\"runs\":%d,\"observations\":%d,\"raced\":%d,\"violations\":%d,\"trace_lines\":%d}\n", len(stats), obs, raced, viol, len(all))
 }
 
-func (w *world) concurrentRun(si, ri int, dir string, nReaders, tracecap int, names *trace.Interner, blocksCfg map[string]any, quiesce bool, batch int) (runStats, []trace.Ev) {
+func (w *world) concurrentRun(si, ri int, dir string, nReaders, tracecap int, names *trace.Interner, blocksCfg map[string]any, quiesce bool, batch int, noStamp bool) (runStats, []trace.Ev) {
 	st := runStats{Stream: si, Run: ri, PoS: w.net.Opt.PoS, Blocks: len(w.stream), ByPhase: map[string]uint64{}}
 	n, err := openStack(w.net, dir)
 	if err != nil {
@@ -200,7 +208,7 @@ func (w *world) concurrentRun(si, ri int, dir string, nReaders, tracecap int, na
 		os.Exit(3)
 	}
 	defer closeStack(n)
-	rc := &runCtx{w: w, node: n}
+	rc := &runCtx{w: w, node: n, noStamp: noStamp}
 	n.KV.OnWrite = rc.onWrite
 	api := newAPI(n)
 	g := w.net.B0.Header().ID()
@@ -258,7 +266,7 @@ func (w *world) concurrentRun(si, ri int, dir string, nReaders, tracecap int, na
 	poisoned := ""
 	for _, id := range w.order {
 		if q, _, _, ok := n.BFT.VerifTally(id); ok {
-			if qr, ok2 := w.ref.tally[id]; ok2 && q < qr {
+			if qr, ok2 := w.ref.tally[id]; ok2 && q != qr {
 				poisoned = fmt.Sprintf("the engine with readers gives block %s the vote quality %d, the engine without readers %d", short(id), q, qr)
 				break
 			}
@@ -340,6 +348,9 @@ func (w *world) concurrentRun(si, ri int, dir string, nReaders, tracecap int, na
 
 	// ---- reader-side results
 	for _, r := range readers {
+		if noStamp {
+			r.apiBest, r.all = nil, nil
+		}
 		r.checkAPIBest(tl)
 		for _, o := range r.all {
 			ok, stale := tl.admissible(o)
@@ -400,6 +411,9 @@ func (w *world) concurrentRun(si, ri int, dir string, nReaders, tracecap int, na
 	st.Violations = vio
 
 	// ---- trace
+	if noStamp {
+		return st, nil // no stamps: no trace
+	}
 	evs := w.traceOf(si, ri, rc, readers, names, blocksCfg)
 	return st, evs
 }
@@ -579,4 +593,18 @@ func (w *world) traceOf(si, ri int, rc *runCtx, readers []*reader, names *trace.
 		out = append(out, l.ev)
 	}
 	return out
+}
+
+// tryBuildStream: a packer failure with an unreadable committed trie is returned, everything else stays a harness panic.
+func tryBuildStream(seed int64, blocks int, pos bool) (w *world, merr error) {
+	defer func() {
+		if x := recover(); x != nil {
+			if me, ok := x.(mintError); ok && strings.Contains(me.err.Error(), "missing trie node") {
+				w, merr = nil, me.err
+				return
+			}
+			panic(x)
+		}
+	}()
+	return buildStream(seed, blocks, pos), nil
 }
